@@ -129,6 +129,7 @@ package jobqueuecontroller
 //@ pure created(rj *execution.Job) Int = ns(rj.CreationTimestamp.Time)
 
 //@ func PerConfigReconciler.listQueuedJobsForJobConfig
+//@   locals jobs: []*github.com/furiko-io/furiko/apis/execution/v1alpha1.Job; rjobs: []*github.com/furiko-io/furiko/apis/execution/v1alpha1.Job
 //@   params w, rjc
 //@   tags C06
 //@   requires w != nil && rjc != nil
@@ -145,6 +146,7 @@ package jobqueuecontroller
 //@ pure dueAtEntry(rj *execution.Job, entryClock Int) bool = !(hasStartAfter(rj) && startAfterNs(rj) > entryClock)
 
 //@ func PerConfigReconciler.SyncOne
+//@   locals err: error; rjc: *github.com/furiko-io/furiko/apis/execution/v1alpha1.JobConfig; rjs: []*github.com/furiko-io/furiko/apis/execution/v1alpha1.Job; store: github.com/furiko-io/furiko/pkg/runtime/controllercontext.ActiveJobStore; activeCount: int64
 //@   params w, ctx, namespace, name, arg3
 //@   tags C05, C06, C07, C20
 //@   requires w != nil && typeis(w.client, *JobControl) && unbox(w.client, *JobControl) != nil
